@@ -69,7 +69,17 @@ def gen_project(rnd):
             "def helper(v):", "    w = v * 2 + 1", "    return w", ""]
     if at_import:
         lib += ["print('lib at import', _SCALED_AT_IMPORT, _ADDED_AT_IMPORT, _COMPUTED_AT_IMPORT, helper(2))", ""]
-    files = {"lib.py": "\n".join(lib) + "\n"}
+    text = "\n".join(lib) + "\n"
+    if not at_import and rnd.random() < 0.4:
+        # the last definition ends the file, without a final newline
+        a_ = "def double_plus(a, b):\n    return a * 2 + b\n\n"
+        b_ = "def helper(v):\n    w = v * 2 + 1\n    return w\n"
+        text = text.rstrip("\n") + "\n"
+        if text.endswith(a_ + b_):
+            text = text[:-len(a_ + b_)] + b_ + "\n" + a_     # the single-expression function comes last
+        text = text.rstrip("\n")
+        shapes.add("no-final-newline")
+    files = {"lib.py": text}
     styles = []
     for ci, cname in enumerate(["client_a.py", "client_b.py"]):
         style = rnd.choice(["import", "alias", "from", "from-as"])
